@@ -57,7 +57,7 @@ def gen_graph(src):
                 if d not in deps:
                     deps.append(d)
         if src.chance(1, 4):
-            nodes.append({"name": name, "kind": "attr", "deps": deps if deps != "*" else [src.pick(bases)], "default": 100 + i})
+            nodes.append({"name": name, "kind": "attr", "deps": deps if deps != "*" else [src.pick(bases)], "default": 100 + i, "factory": src.chance(1, 2)})
         else:
             nodes.append({"name": name, "kind": "prop", "deps": deps, "cache": src.chance(3, 4), "overridable": src.chance(1, 2),
                           "weights": [1 + src.choice(3) for _ in range(len(avail) if deps == "*" else len(deps))]})
@@ -139,7 +139,10 @@ def build(g, counters):
     for node in g["nodes"]:
         if node["kind"] == "attr":
             derived_ns["__annotations__"][node["name"]] = int
-            derived_ns[node["name"]] = Attr(default=node["default"], invalidated_by=list(node["deps"]))
+            if node.get("factory"):  # (the default comes from a factory: nothing sits in the class body to fall back on)
+                derived_ns[node["name"]] = Attr(default_factory=lambda _v=node["default"]: _v, invalidated_by=list(node["deps"]))
+            else:
+                derived_ns[node["name"]] = Attr(default=node["default"], invalidated_by=list(node["deps"]))
         else:
             derived_ns[node["name"]] = spec_property(getter(node), cache=node["cache"], overridable=node["overridable"],
                                                      invalidated_by="*" if node["deps"] == "*" else list(node["deps"]))
